@@ -256,6 +256,30 @@ Proof.
     (split; [reflexivity|split; [assumption|]]); unfold dims_shape; simpl; now rewrite E.
 Qed.
 
+Lemma qobj_inv_spec self r :
+  qobj_inv self = ODims r ->
+  d_from r = d_to self /\ d_to r = d_from self /\
+  fst (dims_shape self) = snd (dims_shape self) /\
+  dims_shape r = shape_swap (dims_shape self).
+Proof.
+  unfold qobj_inv. destruct (fst (dims_shape self) =? snd (dims_shape self)) eqn:E; [|congruence].
+  destruct (dims_swap self) as [d|e] eqn:Es; [|congruence].
+  intros H. inversion H; subst. apply N.eqb_eq in E.
+  destruct (dims_swap_shape _ _ Es) as (A & B & C). tauto.
+Qed.
+
+Lemma qobj_inv_rejects self :
+  fst (dims_shape self) <> snd (dims_shape self) -> qobj_inv self = ORaise TypeError.
+Proof.
+  intros H. unfold qobj_inv. apply N.eqb_neq in H. now rewrite H.
+Qed.
+
+(* the inverse composes with the operand on both sides *)
+Lemma qobj_inv_composes self r :
+  qobj_inv self = ODims r ->
+  d_from r = d_to self /\ d_from self = d_to r.
+Proof. intros H. destruct (qobj_inv_spec _ _ H) as (A & B & _). split; congruence. Qed.
+
 (* ---------------------------- the extra list layer denotes the same space *)
 Lemma mapM_ext_in {A B} (f g : A -> res B) l :
   (forall x, In x l -> f x = g x) -> mapM f l = mapM g l.
